@@ -59,7 +59,8 @@ func (c *selCase) ready() bool {
 		return false
 	}
 	if c.send {
-		return cs.closed || len(cs.buf) < cs.cap || len(cs.recvq) > 0
+		// a parked receiver can be served directly only when the buffer is empty (FIFO)
+		return cs.closed || len(cs.buf) < cs.cap || (len(cs.buf) == 0 && len(cs.recvq) > 0)
 	}
 	return len(cs.buf) > 0 || cs.closed || len(cs.sendq) > 0
 }
@@ -141,7 +142,7 @@ func doSelect(cases []*selCase, hasDefault bool, what string) (int, interface{},
 		if cs.closed {
 			panic("send on closed channel")
 		}
-		if len(cs.recvq) > 0 {
+		if len(cs.recvq) > 0 && len(cs.buf) == 0 {
 			p := cs.recvq[0]
 			pt := p.t
 			dequeue(pt)
@@ -192,7 +193,7 @@ func (c *selCase) selfReady(t *Thread) bool {
 		return false
 	}
 	if c.send {
-		return cs.closed || len(cs.buf) < cs.cap || other(cs.recvq)
+		return cs.closed || len(cs.buf) < cs.cap || (len(cs.buf) == 0 && other(cs.recvq))
 	}
 	return len(cs.buf) > 0 || cs.closed || other(cs.sendq)
 }
